@@ -5,7 +5,8 @@
     Results are characterised as coordinate-keyed maps / position by position (Model/Join.v,
     header): the order of the result list is property C01's business. *)
 From Coq Require Import ZArith List Bool Permutation.
-From Bermuda Require Import Model.Base Model.Select Model.Join Proofs.SelectP Proofs.JoinP.
+From Bermuda Require Import Model.Base Model.Order Proofs.OrderP Proofs.TriangleP.
+From Bermuda Require Import Model.Select Model.Join Proofs.SelectP Proofs.JoinP Proofs.SelectCanon Proofs.JoinCanon.
 Import ListNotations.
 Local Open Scope Z_scope.
 
@@ -53,6 +54,22 @@ Proof.
 Qed.
 Print Assumptions C10_add_statics_copies_only_requested_fields_from_latest_source.
 
+(* Triangle(rich_cells) at the end of add_statics (C01's constructor, Model/Order.v): for a canonical
+   triangle without order-equivalent cells the result is the input's cells, each enriched, position
+   by position *)
+Theorem C10_add_statics_through_the_constructor : forall fields src t,
+  cells_comparable t -> cells_separated t -> canonical t ->
+  mk_triangle (add_statics fields t src) = Ok (map (add_statics_cell fields src) t).
+Proof. exact add_statics_constructor. Qed.
+Print Assumptions C10_add_statics_through_the_constructor.
+
+(* join / merge / coalesce / period_merge build their list in model order; whatever that order, the
+   constructor returns a canonical permutation of it *)
+Theorem C10_model_results_through_the_constructor : forall out r,
+  cells_comparable out -> mk_triangle out = Ok r -> Permutation out r /\ canonical r.
+Proof. exact model_result_through_constructor. Qed.
+Print Assumptions C10_model_results_through_the_constructor.
+
 (* ------------------------------------------------------------------ period_merge *)
 Theorem C10_period_merge_keeps_cells_and_coordinates : forall sfx t1 t2,
   (forall out, period_merge sfx t1 t2 = Ok out ->
@@ -74,7 +91,7 @@ Print Assumptions C10_period_merge_keeps_cells_and_coordinates.
 
 (* ------------------------------------------------------------------ non-vacuity *)
 Definition m1 : meta := default_meta.
-Definition m2 : meta := mkMeta (Some [65]) (Some [85;83]) None None None None [([108], MStr [120])] [].
+Definition m2 : meta := mkMeta (Some [65;99;99;105;100;101;110;116]) (Some [85;83]) None None None None [([108], MStr [120])] [].
 Definition mkv (m : meta) (s e v : Z) (vals : list (str * value)) : cell := mkCell KCum s e v None m vals.
 Definition n (x : Z) : value := VNum (Num false (1024 * x)).
 Definition ex_t : list cell :=
@@ -87,6 +104,10 @@ Example C10_add_statics_nonvacuous :
   map cvals (add_statics [[98]; [100]] ex_t ex_src)
   = [ [([97], n 1); ([98], n 20)]; [([97], n 2); ([98], n 20)]; [([97], n 3)] ]
   /\ source_cell ex_src (mkv m2 737425 737455 737455 []) = None.
+Proof. vm_compute. split; reflexivity. Qed.
+Example C10_add_statics_constructor_nonvacuous :
+  mk_triangle ex_t = Ok ex_t
+  /\ mk_triangle (add_statics [[98]; [100]] ex_t ex_src) = Ok (map (add_statics_cell [[98]; [100]] ex_src) ex_t).
 Proof. vm_compute. split; reflexivity. Qed.
 Example C10_period_merge_nonvacuous :
   period_merge (Some [95]) ex_t [mkv m1 737425 737455 737515 [([98], n 20)]]
